@@ -1,5 +1,123 @@
 package main
 
-import "fmt"
+import (
+	"bufio"
+	"encoding/json"
+	"flag"
+	"fmt"
+	"math/rand"
+	"os"
+	"runtime"
+	"strings"
+	"sync"
 
-func raceMain(args []string) { fmt.Println("race: not built in this binary") }
+	"github.com/grindlemire/go-lucene/pkg/lucene/expr"
+)
+
+// race: C14. N goroutines run every entry point on shared and on private expressions; every result is compared
+// with the result of a sequential run made before, every shared tree is snapshot before and after.
+// Built with -race by the check; a data race makes the process exit with GORACE's exit code.
+
+type rcase struct{ q, df string }
+
+func runAll(c rcase, shared *expr.Expression) []string {
+	res := observeQuery(c.q, c.df)[1:10] // parse, validate, String, GoString, Render, RenderParam, Marshal, ToPostgres, ToParameterizedPostgres
+	if shared != nil {
+		res = append(res, renderAll(shared)...)
+		res = append(res, guard(func() string {
+			if expr.Validate(shared) != nil {
+				return "invalid"
+			}
+			return "ok"
+		}))
+	}
+	return res
+}
+
+func raceMain(args []string) {
+	fs := flag.NewFlagSet("race", flag.ExitOnError)
+	seed := fs.Int64("seed", 1, "seed")
+	n := fs.Int("n", 300, "random queries besides the corpus")
+	g := fs.Int("g", 16, "goroutines")
+	rounds := fs.Int("rounds", 3, "rounds per goroutine")
+	fs.Parse(args)
+	rng = rand.New(rand.NewSource(*seed))
+	out = bufio.NewWriter(os.Stdout)
+	defer out.Flush()
+	cases := []rcase{}
+	for _, q := range corpusQueries {
+		cases = append(cases, rcase{q, ""}, rcase{q, "d"})
+	}
+	for i := 0; i < *n; i++ {
+		t := genTree(1+rng.Intn(3), rng.Intn(3) != 0)
+		cases = append(cases, rcase{join(t.words(func() bool { return rng.Intn(3) == 0 }), rng.Intn(3)), pick(dfChoices)})
+	}
+	// shared expressions and their snapshots
+	shared := make([]*expr.Expression, len(cases))
+	snap := make([]string, len(cases))
+	for i, c := range cases {
+		e, err := parseWith(c.q, c.df)
+		if err == nil && e != nil {
+			shared[i] = e
+			snap[i] = showExpr(e)
+		}
+	}
+	// sequential baseline
+	base := make([][]string, len(cases))
+	for i, c := range cases {
+		base[i] = runAll(c, shared[i])
+	}
+	// a second sequential pass in another order must agree already (state leaking between calls)
+	mism := []string{}
+	var mu sync.Mutex
+	report := func(kind string, i int, k int, got, want string) {
+		mu.Lock()
+		if len(mism) < 20 {
+			mism = append(mism, fmt.Sprintf("%s case=%d query=%q df=%q field=%d got=%.200s want=%.200s", kind, i, cases[i].q, cases[i].df, k, got, want))
+		}
+		mu.Unlock()
+	}
+	order := rng.Perm(len(cases))
+	for _, i := range order {
+		r := runAll(cases[i], shared[i])
+		for k := range r {
+			if r[k] != base[i][k] {
+				report("sequential-rerun-differs", i, k, r[k], base[i][k])
+			}
+		}
+	}
+	var wg sync.WaitGroup
+	calls := 0
+	for w := 0; w < *g; w++ {
+		wg.Add(1)
+		lr := rand.New(rand.NewSource(*seed*1000 + int64(w)))
+		go func() {
+			defer wg.Done()
+			for r := 0; r < *rounds; r++ {
+				for _, i := range lr.Perm(len(cases)) {
+					if lr.Intn(4) == 0 {
+						runtime.Gosched()
+					}
+					res := runAll(cases[i], shared[i])
+					for k := range res {
+						if res[k] != base[i][k] {
+							report("concurrent-result-differs", i, k, res[k], base[i][k])
+						}
+					}
+				}
+			}
+		}()
+		calls += *rounds * len(cases)
+	}
+	wg.Wait()
+	mutated := 0
+	for i, e := range shared {
+		if e != nil && showExpr(e) != snap[i] {
+			mutated++
+			report("shared-expression-modified", i, -1, showExpr(e), snap[i])
+		}
+	}
+	b, _ := json.Marshal(map[string]any{"cases": len(cases), "goroutines": *g, "calls": calls, "shared": len(shared), "mismatches": mism, "mutated": mutated,
+		"samples": []string{cases[0].q, cases[len(cases)-1].q}})
+	fmt.Fprintln(out, strings.TrimSpace(string(b)))
+}
